@@ -3,7 +3,7 @@
 All generators are deterministic functions of a ``random.Random``.
 The verdict families respect the interface decisions of DESIGN.md §6/C03
 (one source attribute per destination slot, initial data exactly where
-``connect`` requires it, ``time_shifted`` and ``weak`` not combined, ...).
+``connect`` requires it, ...).
 """
 from __future__ import annotations
 
@@ -18,7 +18,7 @@ SIDS = ["Sa", "Sb", "Sc", "Sd", "Se"]
 
 def random_scenario(rng: random.Random, nsims=(2, 4), nconns=(1, 5), until=(2, 4), groups=True, siblings=True,
                     weak=0.4, p_async=0.0, shifts=(0, 0, 0, 1, 1, 2), selfloops=0.1, maxloop=3,
-                    parallel_delays=True, types=S.TYPES, p_two_entities=0.0):
+                    parallel_delays=True, types=S.TYPES, p_two_entities=0.0, p_shift_weak=0.15):
     n = rng.randint(*nsims)
     pool = [[]]
     if groups:
@@ -41,7 +41,8 @@ def random_scenario(rng: random.Random, nsims=(2, 4), nconns=(1, 5), until=(2, 4
         shift = rng.choice(shifts)
         wk = canw and rng.random() < weak
         if wk:
-            shift = 0
+            # a connection may be weak AND time-shifted (docs/tutorials use both flags together): both delays add up
+            shift = rng.choice((1, 1, 2)) if rng.random() < p_shift_weak else 0
         if a == b and not wk and shift == 0:
             shift = 1
         if not S.is_pers(sa) and not S.is_trig(da):
